@@ -84,6 +84,10 @@ func Ceiling(ctx *expr.Context, input system.Collection, args ...expr.Expression
 	if len(args) != 0 {
 		return nil, fmt.Errorf("%w: received %v arguments, expected 0", ErrWrongArity, len(args))
 	}
+	// Decimals are rounded exactly: a float64 cannot hold every Decimal
+	if d, ok := input[0].(system.Decimal); ok && input.IsSingleton() {
+		return decimalToInteger(decimal.Decimal(d).Ceil()), nil
+	}
 	// Input type conversion to float64
 	number, err := input.ToFloat64()
 	if err != nil {
@@ -132,6 +136,10 @@ func Floor(ctx *expr.Context, input system.Collection, args ...expr.Expression) 
 	// Argument validations
 	if len(args) != 0 {
 		return nil, fmt.Errorf("%w: received %v arguments, expected 0", ErrWrongArity, len(args))
+	}
+	// Decimals are rounded exactly: a float64 cannot hold every Decimal
+	if d, ok := input[0].(system.Decimal); ok && input.IsSingleton() {
+		return decimalToInteger(decimal.Decimal(d).Floor()), nil
 	}
 	// Input type conversion to float64
 	number, err := input.ToFloat64()
@@ -360,6 +368,10 @@ func Truncate(ctx *expr.Context, input system.Collection, args ...expr.Expressio
 	if len(args) != 0 {
 		return nil, fmt.Errorf("%w: received %v arguments, expected 0", ErrWrongArity, len(args))
 	}
+	// Decimals are rounded exactly: a float64 cannot hold every Decimal
+	if d, ok := input[0].(system.Decimal); ok && input.IsSingleton() {
+		return decimalToInteger(decimal.Decimal(d).Truncate(0)), nil
+	}
 	// Input type conversion to float64
 	number, err := input.ToFloat64()
 	if err != nil {
@@ -371,6 +383,16 @@ func Truncate(ctx *expr.Context, input system.Collection, args ...expr.Expressio
 		return system.Collection{}, nil
 	}
 	return system.Collection{system.Integer(result)}, nil
+}
+
+// decimalToInteger converts an integral decimal to a System Integer; the result
+// is empty when the value is outside of the Integer range.
+func decimalToInteger(d decimal.Decimal) system.Collection {
+	i := d.BigInt()
+	if !i.IsInt64() || i.Int64() < math.MinInt32 || i.Int64() > math.MaxInt32 {
+		return system.Collection{}
+	}
+	return system.Collection{system.Integer(i.Int64())}
 }
 
 // isFinite reports whether f is neither NaN nor an infinity (such values have no Decimal representation).
